@@ -1420,12 +1420,14 @@ class AgProtocol(utils.EventEmitter):
         if operation not in self.supported_ag_call_hold_operations:
             logger.error(f'Unsupported operation: {operation_code.decode()}')
             self.send_cme_error(CmeError.OPERATION_NOT_SUPPORTED)
+            return
 
         if call_index is not None and not any(
             call.index == call_index for call in self.calls
         ):
             logger.error(f'No matching call {call_index}')
             self.send_cme_error(CmeError.INVALID_INDEX)
+            return
 
         # Real three-way calls have more complicated situations, but this is not a popular issue - let users to handle the remaining :)
 
@@ -1480,19 +1482,22 @@ class AgProtocol(utils.EventEmitter):
         display: bytes | None = None,
         indicator: bytes = b'',
     ) -> None:
+        # An omitted <ind> defaults to 0 (3GPP TS 27.007, 8.10)
+        indicator_value = int(indicator) if indicator else 0
         if (
             int(mode) != 3
             or (keypad and int(keypad))
             or (display and int(display))
-            or int(indicator) not in (0, 1)
+            or indicator_value not in (0, 1)
         ):
             logger.error(
                 f'Unexpected values: mode={mode!r}, keypad={keypad!r}, '
                 f'display={display!r}, indicator={indicator!r}'
             )
             self.send_cme_error(CmeError.INVALID_INDEX)
+            return
 
-        self.indicator_report_enabled = bool(int(indicator))
+        self.indicator_report_enabled = bool(indicator_value)
         self.send_ok()
 
     def _on_cmee(self, enabled: bytes) -> None:
